@@ -119,6 +119,8 @@ func c20Schedule(ep *vnet.Endpoint, evs []Ev, discover bool) {
 			case "malformed":
 				ep.Inject([]byte{6, 0x10, 2, 4, 0, 10, 0, 3, 0, 0}, nil)
 				ep.Inject([]byte{6, 0x10, 2}, nil)
+				ep.Inject([]byte{6, 0x10, 2, 8, 0, 4, 1, 0}, nil)       // header announces a total length of 4
+				ep.Inject([]byte{6, 0x10, 2, 4, 0xFF, 0xFF, 0, 0}, nil) // ... of 65535
 			case "other":
 				ep.Inject(pack(&knxnet.ConnStateRes{Channel: 1}), nil)
 				if discover {
